@@ -376,7 +376,7 @@ def design_checks(chk):
 
     def one(job):
         try:
-            return job, tlc.run("Bindings_MC", job[0], workers=4, timeout=3000, heap="6g"), None
+            return job, tlc.run("Bindings_MC", job[0], workers=4, timeout=3000), None
         except Exception as e:  # noqa
             return job, None, e
     futs = [ex.submit(one, j) for j in jobs]
@@ -385,7 +385,7 @@ def design_checks(chk):
         for f in futs:
             (cfg, must_hold, _), r, err = f.result()
             if err is not None:
-                chk.machinery("design check %s: %s" % (cfg, str(err)[:1500]))
+                chk.machinery("design check %s: %s" % (cfg, str(err)[-1500:]))
                 continue
             chk.add_tlc(cfg, r)
             if must_hold and (r.violated or not r.ok):
@@ -423,27 +423,35 @@ def classify(chk, items, direction="spec->code"):
     """items = [(hist, k, rec, mismatch)] that disagree with Bindings.tla -> discrepancies"""
     if not items:
         return {}
-    traces = [{"id": i + 1, "steps": [{kk: vv for kk, vv in r.items() if kk != "note"} for r in rec]}
-              for i, (_, _, rec, _) in enumerate(items) if rec is not None]
+    # identical recorded executions are validated once
+    keyof, uniq = [], {}
+    for (_, _, rec, _) in items:
+        if rec is None:
+            keyof.append(None)
+            continue
+        steps = [{kk: vv for kk, vv in r.items() if kk != "note"} for r in rec]
+        key = json.dumps(steps, sort_keys=True)
+        if key not in uniq:
+            uniq[key] = {"id": len(uniq) + 1, "steps": steps}
+        keyof.append(uniq[key]["id"])
     acc = set()
-    if traces:
-        for i, t in enumerate(traces):
-            t["id"] = i + 1
-        p = tlc.write_json("bindings_traces", traces)
+    traces = list(uniq.values())
+    B = 10000
+    for off in range(0, len(traces), B):
+        part = [dict(t, id=i + 1) for i, t in enumerate(traces[off:off + B])]
+        p = tlc.write_json("bindings_traces_%d" % off, part)
         r = tlc.run("Bindings_Trace", "Bindings_Trace.cfg", env={"TRACE_FILE": p, "DEVS": DEV}, timeout=1800)
-        chk.add_tlc("Bindings_Trace[%s]" % DEV, r)
-        acc = set(r.tagged("ACC"))
+        chk.add_tlc("Bindings_Trace[%s:%d..]" % (DEV, off), r)
+        acc |= {off + i for i in r.tagged("ACC")}
     per_sig = {}
-    j = 0
-    for hist, k, rec, mm in items:
+    for n_item, (hist, k, rec, mm) in enumerate(items):
         case = {"hist": hist, "k": k[0], "fs": k[1]}
         if rec is None:
             chk.discrepancy("Bindings!EveryStepReturns", case, mm["expected"], mm["observed"],
                             sig="case:hang", module="Bindings", direction=direction)
             continue
-        j += 1
         s = hist[mm["step"]]
-        if j in acc:
+        if keyof[n_item] in acc:
             sig = "dev:" + DEV
             clause = "Bindings!RestoredOnExit"
         else:
